@@ -63,7 +63,7 @@ def try2_cases(rng, quick):
     out = []
     counts = list(range(0, 65)) + [41, 50, 100, 100, 21, 39, 40, 60, 61, 80]
     for cnt in counts:
-        for variant in range(2 if quick else 6):
+        for variant in range(4 if quick else 12):
             fam, conn = rng.choice([4, 6]), rng.choice([0, 1])
             big = rng.random() < 0.1 and cnt <= 24
             lens = [(any_len(rng) if big else small_len(rng)) for _ in range(cnt)]
@@ -376,6 +376,8 @@ def udp_monitor(case, line):
             b, ln = [int(x) for x in a.split(",")]
             if buf is not None and not buf[2]:
                 bad.append((None, "alloc_cb called while buffer %d was not handed back" % buf[0]))
+            if buf is not None and buf[2]:
+                pend, pend_stop = [], False     # left behind with the abandoned buffer (DESIGN 3.15)
             if b < nbuf:
                 bad.append((None, "buffer id reused"))
             nbuf = b + 1
@@ -494,7 +496,7 @@ def main():
         b = [l.rsplit(" ", 1)[0] if l else l for l in b]
         for c, v, l in zip(cases, verdicts, b):
             if v != "A1":
-                chk.violation("%s: the Coq monitor rejects a trace of the model (contradicts C10_model_accepted)" % name,
+                chk.violation("%s: the extracted Coq monitors reject a trace of the model (contradicts C10_send_monitor_accepts / C10_recv_buffers_returned)" % name,
                               {"kind": "model", "case": c, "model": l}, found_input=False)
                 break
         vf.diff_cases(chk, name, cases, a, b, monitor)
@@ -520,11 +522,11 @@ def main():
 
     t2 = try2_cases(chk.rng, not thorough)
     a, _ = run("uv_udp_try_send2 batches = Model/Udp.v", t2)
-    qc = queue_cases(chk.rng, 6000 if thorough else 500)
+    qc = queue_cases(chk.rng, 12000 if thorough else 1500)
     a, _ = run("uv_udp_send queue = Model/Udp.v", qc)
     if a:
         chk.sample({"case": qc[0][:300], "impl": a[0][:300]})
-    rc = recv_cases(chk.rng, 5000 if thorough else 400)
+    rc = recv_cases(chk.rng, 10000 if thorough else 1000)
     a, _ = run("udp receive = Model/Udp.v", rc)
     if a:
         chk.sample({"case": rc[0][:300], "impl": a[0][:300]})
